@@ -37,9 +37,14 @@ def bad_policy(rep):
     import pandas as pd
     from fv import design
 
+    from formulae import design_matrices
+
     df = pd.DataFrame({"y": [1, 2, 3], "x": [1.0, None, 3.0]})
-    for pol in ("omit", "", None, "DROP", "raise", 0):
-        st, dm = design.build("y ~ x", df, na_action=pol)
+    # near misses of the three documented spellings included
+    for pol in ("omit", "", None, "DROP", "raise", 0, "err", "pas", "rop", "p", "d", "drop ", " pass", "droperror", "Error", True, ["drop"]):
         rep.cov["evaluations"] += 1
-        if st == "ok":
-            rep.violation({"clause": "unknown_na_action_accepted", "site": "design_matrices"}, {"na_action": repr(pol)})
+        try:
+            design_matrices("y ~ x", df, na_action=pol)
+        except Exception:  # pylint: disable=broad-except
+            continue
+        rep.violation({"clause": "unknown_na_action_accepted", "site": "design_matrices"}, {"na_action": repr(pol)})
